@@ -41,6 +41,35 @@ def _call(c, est, m, Xb):
     return True, numpy.asarray(r)
 
 
+def _scribble(obj, depth=0, seen=None):
+    """What training the original in place does to its fitted arrays (partial
+    fits, warm starts): every writeable numeric array reachable from the fitted
+    attributes is overwritten.  A copy that shares memory with it changes."""
+    seen = set() if seen is None else seen
+    if id(obj) in seen or depth > 6:
+        return 0
+    seen.add(id(obj))
+    n = 0
+    if isinstance(obj, numpy.ndarray):
+        if obj.dtype.kind in "fiu" and obj.flags.writeable and obj.size:
+            obj[...] = 77 if obj.dtype.kind in "iu" else -12345.678
+            n += 1
+        return n
+    if isinstance(obj, (list, tuple)):
+        for v in obj:
+            n += _scribble(v, depth + 1, seen)
+    elif isinstance(obj, dict):
+        for v in obj.values():
+            n += _scribble(v, depth + 1, seen)
+    elif hasattr(obj, "get_params") and hasattr(obj, "__dict__"):
+        for k, v in list(vars(obj).items()):
+            if k.endswith("_") and not k.startswith("__"):
+                n += _scribble(v, depth + 1, seen)
+            elif hasattr(v, "get_params") or isinstance(v, (list, tuple)):
+                n += _scribble(v, depth + 1, seen)
+    return n
+
+
 def _take(Xb, idx):
     """Rows idx of a batch (array or frame; a frame keeps its index labels, so
     duplicated rows have duplicated labels)."""
@@ -148,9 +177,12 @@ def run(c, index, tier):
             pass
 
     restarted = "none"
+    previous = None  # the object a copy was taken from
     first_predict_done = True
     for k in range(nops):
         kinds = ["sub", "perm", "single", "dup", "repeat", "pickle", "cwfp"]
+        if previous is not None:
+            kinds.append("original-trained-in-place")
         if spec.has_n_jobs:
             kinds.append("n_jobs")
         if unseen_idx.size:
@@ -164,7 +196,7 @@ def run(c, index, tier):
         if op == "pickle":
             try:
                 c.log.ev("op", "pickle")
-                est = pickle.loads(pickle.dumps(est))
+                previous, est = est, pickle.loads(pickle.dumps(est))
             except (C.StepCapExceeded, C.HarnessError):
                 raise
             except Exception as e:  # noqa: BLE001
@@ -173,10 +205,19 @@ def run(c, index, tier):
             restarted = "pickle"
             c.probe("restart_pickle")
             continue
+        if op == "original-trained-in-place":
+            if previous is not None:
+                try:
+                    if _scribble(previous):
+                        c.probe("original_overwritten_after_the_copy")
+                except Exception:  # noqa: BLE001 -- read-only or exotic containers
+                    pass
+                previous = None
+            continue
         if op == "cwfp":
             try:
                 c.log.ev("op", "clone_with_fitted_parameters")
-                est = clone_with_fitted_parameters(est)
+                previous, est = est, clone_with_fitted_parameters(est)
             except (C.StepCapExceeded, C.HarnessError):
                 raise
             except Exception as e:  # noqa: BLE001
